@@ -166,10 +166,9 @@ def run(ctx):  # noqa: C901, PLR0912, PLR0915
                            f'completed process_transaction', fi=tm, node=n.stmt)
     ctx.floor('C03.R2', n_as, 10, 'observable assignments in _transaction_manager')
     # the error flag suppresses the commit
-    errs = [n for n in g.nodes if n.kind == 'branch' and n.label is False and
-            unparse(n.test) == 'self.current_transaction.error']
-    ctx.ob('C03.R2', 'error flag gates commit', bool(errs) and all(g.dominates(errs[0], p) for p, _ in pts),
-           'process_transaction is dominated by the false edge of current_transaction.error', fi=tm)
+    gated = bool(pts) and all(('self.current_transaction.error', False) in g.facts_at(p) for p, _ in pts)
+    ctx.ob('C03.R2', 'error flag gates commit', gated,
+           'process_transaction runs only where current_transaction.error is known to be false', fi=tm)
 
     # ------------------------------------------------------------------ R3
     producers = {'old': [], 'new': []}
@@ -422,6 +421,8 @@ def run(ctx):  # noqa: C901, PLR0912, PLR0915
                witness={'resident_locals': sorted(res.tainted)})
     ctx.floor('C03.R4', n_lk, 5, 'PeriodicStates constructions in _periodic_reports_send_loop')
 
+    from . import common
+    common.copies_are_deep(ctx, 'C03.R4', with_mk_copy=False)
     # ------------------------------------------------------------------ R5
     hs = repo.func(f'{TR}._TransactionBase._handle_state_updates')
     for c in calls_in(hs.node):
@@ -559,21 +560,36 @@ def _mk_copy_is_deep(fi):
         for v in assigns.get(nm, []):
             if isinstance(v, ast.Call) and call_name(v) == 'deepcopy' and v.args and unparse(v.args[0]) == 'self':
                 return True, 'is copy.deepcopy(self)'
+    from engine.deps import Deps
+    dp = Deps(fi.node)
+
+    def none_test(t):
+        if isinstance(t, ast.BoolOp):
+            return all(none_test(v) for v in t.values)
+        if isinstance(t, ast.UnaryOp) and isinstance(t.op, ast.Not):
+            return none_test(t.operand)
+        return isinstance(t, ast.Compare) and len(t.ops) == 1 and isinstance(t.ops[0], (ast.Is, ast.IsNot)) and \
+            isinstance(t.comparators[0], ast.Constant) and t.comparators[0].value is None
     for n in walk_no_nested(fi.node):
-        if isinstance(n, ast.For) and 'sorted_container_properties' in unparse(n.iter):
+        # the loop over all container properties - directly, or over a (generator) expression computed from them
+        if isinstance(n, ast.For) and 'call:sorted_container_properties' in dp.sources(n.iter):
             g_ok = False
             for c in calls_in(n, 'setattr'):
                 if len(c.args) == 3 and isinstance(c.args[0], ast.Name) and c.args[0].id in ret_names and \
                         isinstance(c.args[2], ast.Call) and call_name(c.args[2]) == 'deepcopy':
                     g_ok = True
-            # only guards on None are allowed inside the loop
-            for t in walk_no_nested(n):
-                if isinstance(t, ast.If):
-                    txt = unparse(t.test)
-                    if 'is not None' not in txt and 'is None' not in txt:
+            # only guards on None are allowed - inside the loop and in the expression that feeds it
+            tests = [t.test for t in walk_no_nested(n) if isinstance(t, (ast.If, ast.IfExp, ast.While))]
+            for e in dp.reach(n.iter):
+                for x in ast.walk(e):
+                    if isinstance(x, ast.comprehension):
+                        tests += x.ifs
+                    if isinstance(x, ast.Call) and call_name(x) == 'filter':
                         g_ok = False
-                if isinstance(t, (ast.Break, ast.Return)):
-                    g_ok = False
+            if not all(none_test(t) for t in tests):
+                g_ok = False
+            if any(isinstance(t, (ast.Break, ast.Return)) for t in walk_no_nested(n)):
+                g_ok = False
             if g_ok:
                 return True, 'deep-copies every container property value into the copy'
     return False, ('is a shallow copy: nested values (MetricValue, CoreData, lists) stay shared between the MDIB object '
